@@ -25,7 +25,7 @@ namespace avel {
 
 
     template<>
-    class alignas(32) Vector_mask<std::int8_t, 32> {
+    class Vector_mask<std::int8_t, 32> {
     public:
 
         //=================================================
